@@ -210,7 +210,7 @@ def _bqm_task(task):
         rec["merged"] = exprs_to_ir(merge_expressions(qf.expressions))
         rets = []
         for s, _ in rec["exprs"]:
-            if s.startswith("_ret") and s not in rets:
+            if C.is_ret_name(s) and s not in rets:
                 rets.append(s)
         rec["rets"] = rets
         # ---- the four formats
@@ -240,7 +240,7 @@ def _bqm_task(task):
         if excs != {None}:
             rec["raises"] = excs.pop()
             shape = all(py_visitable(e) for _, e in rec["merged"]) and not all(e[0] == "c" for _, e in rec["merged"]) \
-                and all(s.startswith("_ret") for s, _ in rec["merged"]) and rec["merged"]
+                and all(C.is_ret_name(s) for s, _ in rec["merged"]) and rec["merged"]
             if shape:
                 rec["problems"].append(dict(kind="raise", what=f"to_bqm raised {rec['raises']} on a function in the shape it handles"))
             return rec
@@ -389,6 +389,9 @@ def corpus(tier, seed):
         "def test(a: Qint[2], b: Qint[2]) -> Qint[2]:\n    return a + b",
         "def test(a: Qint[4], b: bool) -> Qint[4]:\n    return a + 3 if b else a",
         "def test(a: Qfixed[2, 2], b: bool) -> bool:\n    return b",
+        # local variables whose names start with _ret are intermediates, not return bits
+        "def test(a: bool, b: bool) -> bool:\n    _retval = a or b\n    return not _retval",
+        "def test(a: bool, b: bool, c: bool) -> Tuple[bool, bool]:\n    _retx = a and b\n    _ret0 = _retx ^ c\n    return (_ret0 or _retx, _retx)",
         "def test(a: Qchar, b: bool) -> bool:\n    return b and a == 'z'",
         "def test(a: Tuple[Qint[2], Tuple[bool, Qint[2]]], b: bool) -> bool:\n    return a[1][0] and b",
     ]
